@@ -474,10 +474,80 @@ pub(crate) fn gen_idx(rng: &mut Rng, out: &mut dyn Write) {
     .unwrap();
 }
 
+/// An index / index2 file with more than 2^16 entries (short paths: the case line stays below
+/// 2 MiB): the queried paths sit in the first, the 65535th .. 65538th and the last slot
+pub(crate) fn gen_idx_wide(rng: &mut Rng, kind: u64, n: usize, out: &mut dyn Write) {
+    let mut ents: Vec<String> = Vec::with_capacity(n);
+    let tag = rng.below(0xfff);
+    let path = |i: usize| format!("a{:x}/{:x}", tag, i);
+    for i in 0..n {
+        ents.push(format!("P{}/0/{}/{}", hex(path(i).as_bytes()), i % 8, (i as u64 * 7) % (1 << 28)));
+    }
+    let mut qs: Vec<String> = vec![];
+    for i in [0usize, 1, 255, 256, 65534, 65535, 65536, 65537, n - 2, n - 1] {
+        if i < n {
+            qs.push(hex(path(i).as_bytes()));
+        }
+    }
+    qs.push(hex(path(n + 5).as_bytes()));
+    writeln!(out, "idx F,{},{},256,16,{} {}", rng.below(5), kind, ents.join(","), qs.join(",")).unwrap();
+}
+
+/// One handle that has to load more index files than any fixed-size cache holds: every category in
+/// the base game and two expansions, chunks 0 and 1, `.index` and `.index2` each (180 files, one stored path each);
+/// every path is asked for in order, then again in reverse order, then a few at random
+fn gen_archive_many(rng: &mut Rng, out: &mut dyn Write) {
+    let plat = rng.below(5);
+    let exps = [0u32, 1 + rng.below(4) as u32, 5 + rng.below(5) as u32];
+    let mut dirs: Vec<String> = exps.iter().map(|e| if *e == 0 { "ffxiv".to_string() } else { format!("ex{}", e) }).collect();
+    if rng.chance(1, 2) {
+        dirs.reverse();
+    }
+    let mut slots: Vec<String> = vec![];
+    let mut paths: Vec<String> = vec![];
+    for (cname, cid) in CATS.iter() {
+        for e in exps.iter() {
+            // chunk 0 holds one path, chunk 1 another: a lookup of the second walks chunk 0's two
+            // index files first (three or four files per repository and category)
+            for chunk in [0u32, 1] {
+                let p = if *e == 0 { format!("{}/f{}/{}{}.dat", cname, rng.below(99), word(rng), chunk) } else { format!("{}/ex{}/{}_{}{}.dat", cname, e, word(rng), rng.below(99), chunk) };
+                for kind in [1u32, 2] {
+                    slots.push(format!("{}:{}:{}:{}:F,{},{},256,16,P{}/0/{}/{}", e, cid, chunk, kind, plat, kind, hex(p.as_bytes()), rng.below(8), 1 + rng.below(1 << 20)));
+                }
+                if chunk == 1 || rng.chance(1, 4) {
+                    paths.push(p);
+                }
+            }
+        }
+    }
+    let mut qs: Vec<String> = vec![];
+    for p in paths.iter() {
+        qs.push(format!("{}{}", if rng.chance(1, 2) { "o" } else { "e" }, hex(p.as_bytes())));
+    }
+    for p in paths.iter().rev() {
+        qs.push(format!("o{}", hex(p.as_bytes())));
+    }
+    for _ in 0..10 {
+        qs.push(format!("o{}", hex(rng.pick(&paths).as_bytes())));
+    }
+    writeln!(out, "arch {} {} {} - {} one", plat, dirs.iter().map(|d| hex(d.as_bytes())).collect::<Vec<_>>().join(","), slots.join(";"), qs.join(",")).unwrap();
+}
+
 pub fn generate(thorough: bool, seed: u64, out: &mut dyn Write) {
     let mut rng = Rng::new(seed, "C01");
     for _ in 0..(if thorough { 2000 } else { 60 }) {
         gen_idx(&mut rng, out);
+    }
+    // tables beyond 2^16 entries, both index kinds (thorough: also 2^16 - 1, 2^16, 2^17 + 1)
+    gen_idx_wide(&mut rng, 1, 65537, out);
+    gen_idx_wide(&mut rng, 2, 66000, out);
+    if thorough {
+        for n in [65535usize, 65536, 131073] {
+            gen_idx_wide(&mut rng, 1 + (n as u64 % 2), n, out);
+        }
+    }
+    for _ in 0..(if thorough { 20 } else { 2 }) {
+        gen_archive_many(&mut rng, out);
     }
     let mut sweep_buf: Vec<u8> = vec![];
     sweep(&mut rng, if thorough { 1 } else { 41 }, &mut sweep_buf);
